@@ -33,6 +33,8 @@ TimeRepresentable(tokens, v, ampmOk) ==
                 \/ ~h12 /\ ap /\ v.h \in {0, 12}
                 \/ ~h12 /\ ~ap /\ v.h = 0
   IN  /\ hourOk
+      \* an am/pm field must be readable back: only where the culture's two designators can be told apart
+      /\ (HasTok(tokens, {"t", "tt"}) => ampmOk)
       /\ (HasTok(tokens, {"m", "mm"}) \/ v.mi = 0)
       /\ (HasTok(tokens, {"s", "ss"}) \/ v.s = 0)
       /\ v.n % Pow10(9 - MaxFrac(tokens)) = 0
@@ -67,13 +69,39 @@ AnnualRepresentable(tokens, v, tpl, textOk) ==
   /\ (HasTok(tokens, {"d", "dd"}) \/ v.d = tpl.d)
   /\ (HasTok(tokens, {"MMM", "MMMM"}) => textOk)
 
+\* ---- duration: v = [neg, days, h, mi, s, n] (magnitude decomposed; neg = TRUE for negative durations) -----------
+\* D = days; H / M / S = *total* hours / minutes / seconds (they absorb every coarser unit); h / m / s = the partial
+\* fields.  A value is representable when every non-zero field is captured, at most one total field is used,
+\* and a sign field exists for negative values.
+DurationRepresentable(tokens, v) ==
+  LET d == HasTok(tokens, {"D", "DD"})  tH == HasTok(tokens, {"H", "HH"})  tM == HasTok(tokens, {"M", "MM"})  tS == HasTok(tokens, {"S", "SS"})
+      ph == HasTok(tokens, {"h", "hh"})  pm == HasTok(tokens, {"m", "mm"})  ps == HasTok(tokens, {"s", "ss"})
+      totals == (IF d THEN 1 ELSE 0) + (IF tH THEN 1 ELSE 0) + (IF tM THEN 1 ELSE 0) + (IF tS THEN 1 ELSE 0)
+  IN  /\ totals <= 1
+      /\ ~(tH /\ ph) /\ ~(tM /\ (pm \/ ph)) /\ ~(tS /\ (ps \/ pm \/ ph))
+      /\ (d \/ tH \/ tM \/ tS \/ v.days = 0)
+      /\ (tH \/ ph \/ tM \/ tS \/ v.h = 0)
+      /\ (tM \/ pm \/ tS \/ v.mi = 0)
+      /\ (tS \/ ps \/ v.s = 0)
+      /\ v.n % Pow10(9 - MaxFrac(tokens)) = 0
+      /\ (HasTok(tokens, {"+", "-"}) \/ ~v.neg)
+\* a duration pattern whose fields do not overlap (a total field together with a partial field of a coarser or equal
+\* unit prints the same time twice; parsing adds both, so such patterns make no re-format promise either)
+DurationNonRedundant(tokens) ==
+  LET d == HasTok(tokens, {"D", "DD"})  tH == HasTok(tokens, {"H", "HH"})  tM == HasTok(tokens, {"M", "MM"})  tS == HasTok(tokens, {"S", "SS"})
+      ph == HasTok(tokens, {"h", "hh"})  pm == HasTok(tokens, {"m", "mm"})  ps == HasTok(tokens, {"s", "ss"})
+  IN  /\ (IF d THEN 1 ELSE 0) + (IF tH THEN 1 ELSE 0) + (IF tM THEN 1 ELSE 0) + (IF tS THEN 1 ELSE 0) <= 1
+      /\ ~(tH /\ ph) /\ ~(tM /\ (pm \/ ph)) /\ ~(tS /\ (ps \/ pm \/ ph))
+DurationVocab == {"D", "DD", "H", "HH", "h", "hh", "M", "MM", "m", "mm", "S", "SS", "s", "ss", "+", "-", ":", ".", " ", "'d'",
+                  "fff", "ffffff", "fffffffff", "FFF", "FFFFFFFFF", ".fff", ".FFF", ".FFFFFFFFF"}
+
 \* tokens outside the vocabulary the spec gives a meaning to make no round-trip promise
 Understood(tokens, vocab) == \A i \in 1..Len(tokens) : tokens[i] \in vocab
 TimeVocab == {"H", "HH", "h", "hh", "m", "mm", "s", "ss", "t", "tt", ":", ".", " ", "'at'", "\\h", "-", "/", "'T'", ","}
              \cup {x \in {"f", "ff", "fff", "ffffff", "fffffffff", "F", "FFF", "FFFFFFFFF", ".fff", ".FFF", ";fff", ";FFFFFFFFF", ";FFF"} : TRUE}
 OffsetVocab == {"+", "-", "H", "HH", "m", "mm", "s", "ss", ":", "'x'", "\\:", " "}
 DateVocab == {"yyyy", "uuuu", "u", "M", "MM", "MMM", "MMMM", "d", "dd", "ddd", "dddd", "g", "gg", "c", "/", "-", " ", "'of'", ",", "\\d", "'T'", ":", "."}
-Numeric == {"H", "HH", "h", "hh", "m", "mm", "s", "ss", "yyyy", "uuuu", "u", "M", "MM", "d", "dd", "D", "DD", "S", "y", "yy"}
+Numeric == {"H", "HH", "h", "hh", "m", "mm", "s", "ss", "yyyy", "uuuu", "u", "M", "MM", "d", "dd", "D", "DD", "S", "SS", "y", "yy"}
            \cup {"f", "ff", "fff", "ffffff", "fffffffff", "F", "FFF", "FFFFFFFFF"}
 \* no two digit-producing fields touch (a fraction introduced by its own '.' or ';' is delimited by it)
 \* an optional fraction (F-family) may print nothing, and with ';' it accepts '.' or ',' when parsing: it must not be
